@@ -168,9 +168,14 @@ def rule_mergelookup(ctx):
     for side, lab in (("x", xl), ("y", yl)):
         good = False
         why = "lookup not recognised"
+        cands = []
         for b in tm.walk(lab):
             if b.op == "upd" and b.a[1] == "method:append":
-                val = b.a[3].a[0] if b.a[3].op == "tuple" and b.a[3].a else None
+                cands.append(b.a[3].a[0] if b.a[3].op == "tuple" and b.a[3].a else None)
+            elif b.op == "comp" and b.a[0] == "list":
+                cands.append(b.a[1])  # the same loop written as (or canonicalised to) a comprehension
+        for val in cands:
+            if True:
                 if val is not None and val.op == "sub" and val.a[0].op == "param" and val.a[0].a[0] == side + "_labels":
                     idx = val.a[1]
                     # idx = arange(len(labels))[mask][-1]
